@@ -34,7 +34,8 @@ type d12Ref struct {
 	perSync         []map[string]bool
 }
 
-func d12Build(id string, fin bool) *dRun {
+func d12Build(id string, variant string) *dRun {
+	fin := variant == "fintrue"
 	uid := uniqueID("k")
 	sc := &dScenario{ID: uid, Target: "Thing", Finalize: fin, Kinds: []dKind{{Kind: "ConfigMap", Method: "InPlace"}, {Kind: "Widget", Method: "Recreate"}}}
 	sc.Kids = []dKid{{Kind: "ConfigMap", Name: "upd-" + uid, Value: "v1"}, {Kind: "ConfigMap", Name: "new-" + uid, Value: "v1"}, {Kind: "Widget", Name: "w-" + uid, Value: "v1"}, {Kind: "Widget", Name: "wnew-" + uid, Value: "v1"}}
@@ -46,6 +47,12 @@ func d12Build(id string, fin bool) *dRun {
 	s.MustCreate(sim.WidgetInfo.GVR(), r.asCreatedByDC(sc.Kids[2], "old", uid))
 	s.ExtMutate(sc.targetInfo().GVR(), sc.ns(), sc.targetName(), func(o sim.Obj) {
 		sim.SetNested(o, sim.Obj{"decorated": "yes"}, "spec", "setLabels")
+		if variant == "labelsonly" {
+			// labels and annotations are the only thing the decorator writes to its target: the
+			// write that sets them is the only parent write of the sync
+			sim.SetNested(o, sim.Obj{"decorated-note": "yes"}, "spec", "setAnnotations")
+			return
+		}
 		sim.SetNested(o, sim.Obj{"phase": "Decorated"}, "spec", "decorStatus")
 	})
 	return r
@@ -66,15 +73,17 @@ func d12Normalize(r *dRun) map[string]interface{} {
 	return out
 }
 
-func d12Run(t *testing.T, fin bool, f *d12Fault, ref *d12Ref) *d12Ref {
+func d12Run(t *testing.T, variant string, f *d12Fault, ref *d12Ref) *d12Ref {
 	rep := sim.R()
-	name := fmt.Sprintf("fin%v", fin)
+	fin := variant == "fintrue"
+	_ = fin
+	name := variant
 	id := "c12-decorator-ref-" + name
 	if f != nil {
 		id = fmt.Sprintf("c12-decorator-%s-%s-p%d-%s", name, f.Target, f.Pos, f.Kind)
 		rep.Begin("C12", id)
 	}
-	r := d12Build(id, fin)
+	r := d12Build(id, variant)
 	defer r.close()
 	w := r.w
 	s := w.sim
@@ -347,14 +356,14 @@ func faultedVerbD(sr *syncResult) string {
 }
 
 func TestVerif_C12_DecoratorFaults(t *testing.T) {
-	for _, fin := range []bool{false, true} {
+	for _, fin := range []string{"finfalse", "fintrue", "labelsonly"} {
 		fin := fin
 		ref := d12Run(t, fin, nil, nil)
 		if ref == nil || ref.final == nil {
-			sim.R().Inconclusive("C12", fmt.Sprintf("c12-decorator-ref-fin%v", fin), "reference run failed")
+			sim.R().Inconclusive("C12", fmt.Sprintf("c12-decorator-ref-%v", fin), "reference run failed")
 			continue
 		}
-		sim.R().Note("C12", fmt.Sprintf("decorator scenario fin=%v: fault-free run = %d API requests, %d hook calls", fin, ref.apiOps, ref.hookOps))
+		sim.R().Note("C12", fmt.Sprintf("decorator scenario %v: fault-free run = %d API requests, %d hook calls", fin, ref.apiOps, ref.hookOps))
 		var faults []d12Fault
 		for p := 1; p <= ref.apiOps; p++ {
 			for _, k := range d12APIFaults {
@@ -371,7 +380,7 @@ func TestVerif_C12_DecoratorFaults(t *testing.T) {
 		}
 		for _, f := range faults {
 			f := f
-			id := fmt.Sprintf("c12-decorator-fin%v-%s-p%d-%s", fin, f.Target, f.Pos, f.Kind)
+			id := fmt.Sprintf("c12-decorator-%v-%s-p%d-%s", fin, f.Target, f.Pos, f.Kind)
 			if !sim.WantCase(id) {
 				continue
 			}
